@@ -1,5 +1,5 @@
 use crate::{
-  byte_code::{ByteCodeEncoder, EncodedChunk, SymbolicByteCode},
+  byte_code::{ByteCodeEncoder, EncodedChunk, Label, SymbolicByteCode},
   cache::CacheIdEmitter,
   chunk_builder::ChunkBuilder,
   source::VmFileId,
@@ -347,18 +347,68 @@ fn label_count(instructions: &[SymbolicByteCode]) -> usize {
   count
 }
 
+/// Simulate the stack depth of each instruction following the control flow
+/// instead of the instruction order. The depth at a label is the depth of the
+/// first jump that targets it (or of the fall through into it), code following
+/// an unconditional transfer continues with the depth recorded for the next label
 fn apply_stack_effects(fun_builder: &mut FunBuilder, instructions: &mut [SymbolicByteCode]) {
+  let parameter_slots = fun_builder.parameter_slots();
+  let mut label_slots: Vec<Option<i32>> = vec![None; label_count(instructions)];
   let mut slots: i32 = 1;
+  let mut reachable = true;
+
+  fn record(label_slots: &mut [Option<i32>], label: &Label, slots: i32) {
+    if let Some(slot) = label_slots.get_mut(label.val() as usize) {
+      if slot.is_none() {
+        *slot = Some(slots);
+      }
+    }
+  }
 
   for instruction in instructions {
+    if let SymbolicByteCode::Label(label) = instruction {
+      match label_slots.get(label.val() as usize).copied().flatten() {
+        Some(recorded) => slots = recorded,
+        None => {
+          if reachable {
+            record(&mut label_slots, label, slots);
+          }
+        },
+      }
+      reachable = true;
+    }
+
     if let SymbolicByteCode::PushHandler((_, label)) = instruction {
       // TODO handle to many slots
-      *instruction = SymbolicByteCode::PushHandler((slots as u16, *label))
+      // the catch block starts with the depth live at the try
+      record(&mut label_slots, label, slots);
+      *instruction = SymbolicByteCode::PushHandler(((slots + parameter_slots) as u16, *label))
     }
 
     slots += instruction.stack_effect();
     debug_assert!(slots >= 0);
     fun_builder.update_max_slots(slots);
+
+    match instruction {
+      SymbolicByteCode::Jump(label) => {
+        record(&mut label_slots, label, slots);
+        reachable = false;
+      },
+      SymbolicByteCode::JumpIfFalse(label) | SymbolicByteCode::CheckHandler(label) => {
+        record(&mut label_slots, label, slots);
+      },
+      SymbolicByteCode::And(label) | SymbolicByteCode::Or(label) => {
+        // the short circuit keeps the operand the fall through dropped
+        record(&mut label_slots, label, slots + 1);
+      },
+      SymbolicByteCode::Loop(_)
+      | SymbolicByteCode::Return
+      | SymbolicByteCode::Raise
+      | SymbolicByteCode::ContinueUnwind => {
+        reachable = false;
+      },
+      _ => (),
+    }
   }
 }
 
